@@ -114,9 +114,29 @@ KIND_FAM = {"Ingress": "ing", "VirtualServer": "vs", "VirtualServerRoute": "vsr"
             "GlobalConfiguration": "gc", "Service": "svc", "EndpointSlice": "eps", "Secret": "secret"}
 
 
-def input_class(c):
+LOGDST_ANCHORED = re.compile(r'(?:(?:syslog:server=((?:\d{1,3}\.){3}\d{1,3}|localhost|[a-zA-Z0-9._-]+):\d{1,5})|stderr|(?:/[\S]+)+)')
+LOGDST_ANN = "appprotect.f5.com/app-protect-security-log-destination"
+
+
+def _logdst_near_miss(v):
+    """contains a valid fragment (passes the unanchored format check) without being a valid destination"""
+    return isinstance(v, str) and LOGDST_ANCHORED.search(v) is not None and LOGDST_ANCHORED.fullmatch(v) is None
+
+
+def input_class(c, p=None):
     """the input class of a panicking case, so that a known finding only covers its own class"""
     fam = c["fam"]
+    if fam == "adv":
+        is_logdst = c["shape"].startswith("ann|" + LOGDST_ANN + "|") or (c["shape"].startswith("crd|pol-waf|") and c.get("kind", "").endswith(".logDest"))
+        if is_logdst:
+            m = re.search(r'value=("(?:[^"\\]|\\.)*")', (p or {}).get("combo", ""))
+            try:
+                vals = json.loads(m.group(1)).split(",") if m else None
+            except Exception:
+                vals = None
+            if vals is None or any(_logdst_near_miss(v) for v in vals):
+                return "log-destination-with-valid-fragment"
+        return "other"
     if fam == "ing":
         d = c["shape"]          # 1 d t m c a n h s k k2 r2
         if d[4] == "1" and d[6] == "1" and d[7] == "2" and d[9] in "23":
@@ -142,6 +162,15 @@ def input_class(c):
                 tls = spec.get("tls")
                 if tls is not None and not tls.get("secret") and not spec.get("host"):
                     return "tls-block-without-secret/no-host"
+            if c.get("kind") == "Ingress":
+                v = ((o.get("metadata") or {}).get("annotations") or {}).get(LOGDST_ANN)
+                if v is not None and any(_logdst_near_miss(x) for x in v.split(",")):
+                    return "log-destination-with-valid-fragment"
+            if c.get("kind") == "Policy":
+                waf = spec.get("waf") or {}
+                logs = [waf.get("securityLog")] + list(waf.get("securityLogs") or [])
+                if any(_logdst_near_miss((l or {}).get("logDest")) for l in logs):
+                    return "log-destination-with-valid-fragment"
         except Exception:
             pass
         return "other"
@@ -150,7 +179,7 @@ def input_class(c):
 
 def panic_sig(c, p):
     fam = c["fam"] if c["fam"] != "rnd" else KIND_FAM.get(c.get("kind"), "rnd")
-    return {"kind": "panic", "fam": fam, "stage": p["stage"], "site": p["site"], "class": input_class(c)}
+    return {"kind": "panic", "fam": fam, "stage": p["stage"], "site": p["site"], "class": input_class(c, p)}
 
 
 def judge_shapes(run, cases, rows, counts=None):
@@ -211,6 +240,34 @@ def judge_shapes(run, cases, rows, counts=None):
         run.cov["exhaustive"] = all(v["model_enumeration"] == v["distinct_shapes_run"] and v["model_enumeration"] > 0 for v in ex.values())
 
 
+def judge_adversarial(run, cases):
+    """family adv: near-miss values on every annotation and on every string leaf of rich custom resources; S only"""
+    tot = {"fields": 0, "values": 0, "validations": 0, "accepted_and_run_through_store_extend_generate": 0}
+    for c in cases:
+        if c.get("error"):
+            run.failing({"kind": "harness-case-error", "fam": "adv"}, [c], "the harness could not run adversarial job %s: %s" % (c.get("shape"), c["error"][:300]),
+                        theorem="correspondence harness c17", found_input=False)
+            continue
+        tot["fields"] += 1
+        tot["values"] += c.get("values", 0)
+        tot["validations"] += c.get("tried", 0)
+        tot["accepted_and_run_through_store_extend_generate"] += c.get("acc_runs", 0)
+        run.count_case({"fam": "adv", "shape": c["shape"]}, c.get("acc_runs", 0) > 0)
+        seen = set()
+        for p in c.get("panics") or []:
+            sig = panic_sig(c, p)
+            key = json.dumps(sig, sort_keys=True)
+            if key in seen:
+                continue
+            seen.add(key)
+            one = dict(c)
+            one["panics"] = [p]
+            run.failing(sig, [one], "an admissible object with a near-miss value on %s makes the real code panic (%s) at stage %s in %s: %s"
+                        % (c["shape"] + (" " + c["kind"] if c.get("kind") else ""), p["combo"][:120], p["stage"], p["site"], p["msg"][:120]),
+                        theorem="S: no panic on admissible objects (adversarial values)")
+    run.cov["adversarial_values"] = tot
+
+
 def judge_random(run, cases):
     n_adm = 0
     n_acc = 0
@@ -248,9 +305,10 @@ def check(run):
     if rc != 0:
         raise C.TieBroken("c17 harness failed rc=%d: %s" % (rc, log[-1500:]))
     cases = C.read_jsonl(out)
-    shapes = [c for c in cases if c["fam"] not in ("rnd", "inv")]
+    shapes = [c for c in cases if c["fam"] not in ("rnd", "inv", "adv")]
     rnd = [c for c in cases if c["fam"] == "rnd"]
     judge_inventory(run, [c for c in cases if c["fam"] == "inv"])
+    judge_adversarial(run, [c for c in cases if c["fam"] == "adv"])
     counts, roundtrip = model_counts()
     run.add_obligation(roundtrip, "Shapes.Cases.codes_roundtrip", "a shape code does not decode back to its shape")
     rows = evaluate(shapes, run.tier)
@@ -267,7 +325,12 @@ def check(run):
                        "concrete object and run through validator, Configuration.AddOrUpdate* against 4 prior states, createExtendedResources + Configurator with the "
                        "real templates, Delete*, and the worker's sync function, for every setting of the flags the model reads; the remaining flags rotate per shape "
                        "(quick) or are swept (thorough).  A shape counts as nontrivial when it is API-admissible.  S: random schema-admissible objects with values; "
-                       "only objects accepted by the structural-schema validator (CRDs) / the transcribed built-in rules count.")
+                       "only objects accepted by the structural-schema validator (CRDs) / the transcribed built-in rules count.  "
+                       "S, adversarial values (family adv): every annotation of the validator's table and every string leaf of rich valid VirtualServer / VirtualServerRoute / "
+                       "TransportServer / Policy (one per kind) / GlobalConfiguration objects gets every value of a near-miss grammar of its valid value (junk prefix/suffix, "
+                       "separator removed / doubled / alone, part emptied, truncation at each separator, only separators, out-of-range numbers, 5000-byte, non-ASCII, control "
+                       "characters, quotes, braces, backslashes); validators run under Plus/AppProtect/DoS on and off x the other four flags all on / all off; accepted values go "
+                       "through store, createExtendedResources, the Configurator and the sync function (also as master and as minion annotations).")
     run.cov["trusted_base"] = TRUSTED
     run.assumptions += [
         "built-in kinds: the API server's validation of Ingress/Service/Secret/EndpointSlice is transcribed (not executed): exactly one of service/resource per "
@@ -290,8 +353,9 @@ def replay(run, path):
     if rc != 0:
         raise C.TieBroken("c17 harness failed on replay: %s" % log[-1500:])
     cases = C.read_jsonl(out)
-    shapes = [c for c in cases if c["fam"] not in ("rnd", "inv")]
+    shapes = [c for c in cases if c["fam"] not in ("rnd", "inv", "adv")]
     rnd = [c for c in cases if c["fam"] == "rnd"]
+    adv = [c for c in cases if c["fam"] == "adv"]
     rows = evaluate(shapes, "replay")
     for c in shapes:
         r = rows.get(c["id"])
@@ -299,5 +363,8 @@ def replay(run, path):
             c["fam"], c["shape"], c.get("obs"), json.dumps(c.get("panics", [])[:2]), r and r[1], r and r[2]))
     for c in rnd:
         print("replay random %s: admitted=%s panics=%s" % (c.get("kind"), c.get("admitted"), json.dumps(c.get("panics", [])[:2])))
+    for c in adv:
+        print("replay adversarial job %s %s: values=%s validations=%s panics=%s" % (c["shape"], c.get("kind", ""), c.get("values"), c.get("tried"), json.dumps(c.get("panics", [])[:3])))
     judge_shapes(run, shapes, rows)
     judge_random(run, rnd)
+    judge_adversarial(run, adv)
